@@ -434,7 +434,7 @@ class C08(core.Check):
         'effect:mute', 'effect:include', 'effect:origin', 'effect:zone-switch', 'starts-in-named-zone', 'effect:unmute-inside-branch-while-muted', 'if:bare-literal', 'if:bare-symbol', 'if:bare-negative', 'if:text-comparison', 'if:op==', 'if:op!=',
         'if:op>', 'if:op>=', 'if:op<', 'if:op<=', 'ctx:unsel:nested-in-unselected', 'ctx:unsel:earlier-branch-taken',
         'ctx:unsel:condition-false', 'numeric-vs-text-disagree', 'stray:else', 'stray:elif', 'stray:endif', 'stray:in-included-file', 'same-condition-text-before-and-after-define',
-        'source:cli', 'source:isa']}
+        'source:cli', 'source:isa', 'condition:shift-operator']}
 
     def finish(self, g, rng, extra_tags=()):
         items = g.items
@@ -557,6 +557,23 @@ class C08(core.Check):
                                      'argv': ['compile', '-c', fn0, 'p.asm', '-o', 'out.bin'], 'probes': ['steps', 'cond'], 'step_limit': 500000}],
                            'meta': {'model': {'kind': 'ACCEPT', 'image': img, 'undefined_first': True}, 'markers': {}},
                            'tags': ['same-condition-text-before-and-after-define', 'expect:ACCEPT']}
+        # shift operators inside conditions (their characters are also the comparison operators'), and comparisons written
+        # without blanks around the operator: the latter may be refused, but never read as something else
+        for cond_txt, val, truth, may_refuse in (
+                ('1 << 3', '1', True, False), ('SYMQ >> 1', '1', False, False), ('(SYMQ >> 1)', '2', True, False), ('SYMQ >> 2', '3', False, False),
+                ('SYMQ << 2 == 4', '1', True, False), ('SYMQ < 1 << 3', '7', True, False), ('SYMQ < 1 << 3', '8', False, False),
+                ('SYMQ > 1 << 2', '5', True, False), ('SYMQ >= 1 << 2', '3', False, False), ('1 << SYMQ != 8', '3', False, False),
+                ('5==6', '1', False, True), ('5==5', '1', True, True), ('SYMQ==2', '2', True, True), ('SYMQ==2', '3', False, True),
+                ('SYMQ!=1', '1', False, True), ('SYMQ>=5', '4', False, True), ('SYMQ<1', '1', False, True), ('2>3', '1', False, True),
+                ('SYMQ ==2', '3', False, True), ('SYMQ== 2', '3', False, True), ('SYMQ<=0', '1', False, True), ('0!=0', '1', False, True)):
+            for kind_ in ('if', 'elif'):
+                head = [f'#if {cond_txt}'] if kind_ == 'if' else ['#if 0', '.byte 9', f'#elif {cond_txt}']
+                src = [f'#define SYMQ {val}'] + head + ['.byte 3', '#else', '.byte 4', '#endif', '.byte 5']
+                yield {'runs': [{'files': {fn0: text0, 'p.asm': '\n'.join(src) + '\n'},
+                                 'argv': ['compile', '-c', fn0, 'p.asm', '-o', 'out.bin'], 'probes': ['steps', 'cond'], 'step_limit': 500000}],
+                       'meta': {'model': {'kind': 'ACCEPT', 'image': bytes([3 if truth else 4, 5]).hex(), 'undefined_first': may_refuse,
+                                          'why_refusable': 'a comparison written without blanks around its operator may be refused'}, 'markers': {}},
+                       'tags': ['condition:comparison-without-blanks' if may_refuse else 'condition:shift-operator', 'expect:ACCEPT']}
         if tier == 'thorough':
             yield from self.sweep()
 
@@ -619,7 +636,7 @@ class C08(core.Check):
             return [core.held(buckets=tags, nt=nt)]
         img = (o.get('files') or {}).get('out.bin')
         if m.get('undefined_first') and o.get('exit') != 0:
-            return [core.dont_care('a condition over a symbol that is not defined yet may be refused')]
+            return [core.dont_care(m.get('why_refusable') or 'a condition over a symbol that is not defined yet may be refused')]
         if o.get('exit') != 0 or img is None:
             err = (o.get('stderr') or '')[-400:]
             cls = 'rejected'
